@@ -115,6 +115,7 @@ type execRunner struct {
 	h2p func(n, a string) (string, string, error)
 
 	p2hCalls, h2pCalls int32
+	onStart            func()
 }
 
 func newExecRunner(cmd *exec.Cmd) (*execRunner, error) {
@@ -130,6 +131,9 @@ func newExecRunner(cmd *exec.Cmd) (*execRunner, error) {
 }
 
 func (r *execRunner) Start(context.Context) error {
+	if r.onStart != nil {
+		r.onStart()
+	}
 	if err := r.cmd.Start(); err != nil {
 		return err
 	}
